@@ -53,6 +53,18 @@ pub fn client_config(alpn: &[&str]) -> Arc<rustls::ClientConfig> {
     Arc::new(cfg)
 }
 
+/// A client configuration that trusts nobody (empty root store) and offers another ALPN list: what
+/// a transport is configured with *first* in the re-configuration cases - it must not survive.
+pub fn client_config_trusting_nobody() -> Arc<rustls::ClientConfig> {
+    let mut cfg = rustls::ClientConfig::builder_with_details(provider(), Arc::new(FixedTime(SIM_WALL_CLOCK)))
+        .with_safe_default_protocol_versions()
+        .expect("protocol versions")
+        .with_root_certificates(rustls::RootCertStore::empty())
+        .with_no_client_auth();
+    cfg.alpn_protocols = vec![b"sim-other".to_vec()];
+    Arc::new(cfg)
+}
+
 pub fn server_config(kind: CertKind, alpn: &[&str]) -> Arc<rustls::ServerConfig> {
     let (cert, key) = match kind {
         CertKind::Good => GOOD,
